@@ -9,6 +9,7 @@ import dataclasses as dc
 import enum
 import json
 import os
+import re
 from typing import Any, Dict, List, Optional, Set, Tuple
 
 import jsonschema
@@ -121,6 +122,20 @@ def endpoint_path(path: str, prefix: str) -> str:
     return path if not prefix else path.rstrip('/') + '/' + prefix.lstrip('/')
 
 
+def null_text_members(v: Any, path: str = '') -> List[str]:
+    """paths of summary / description / title members whose value is null"""
+    out: List[str] = []
+    if isinstance(v, dict):
+        for k, x in v.items():
+            if k in ('summary', 'description', 'title') and x is None and not path.endswith('/properties') and not path.endswith('/example') and '/examples' not in path:
+                out.append(f'{path}/{k}')
+            out += null_text_members(x, f'{path}/{k}')
+    elif isinstance(v, list):
+        for i, x in enumerate(v):
+            out += null_text_members(x, f'{path}/{i}')
+    return out
+
+
 def closure(doc: Any, entry: Any) -> Dict[str, Any]:
     """the components reachable from an entry through $ref"""
     seen: Dict[str, Any] = {}
@@ -174,7 +189,7 @@ class C16(Check):
         s_ann = st.sampled_from([a for a in ANN if a != 'none'] + ['int', 'str', 'ModelA'])
         s_param = st.tuples(s_ann, st.booleans())
         s_ret = st.sampled_from(['missing', 'none', 'int', 'opt_int', 'ModelA', 'list_ModelB', 'str', 'ModelC'])
-        s_doc = st.sampled_from(['none', 'none', 'summary', 'full', 'full', 'raises', 'deprecated', 'bare-types'])
+        s_doc = st.sampled_from(['none', 'none', 'summary', 'full', 'full', 'raises', 'deprecated', 'bare-types', 'fields-only'])
         s_bool = st.booleans()
         s_rare = st.integers(0, 3).map(lambda n: n == 0)
         s_annot = st.fixed_dictionaries({
@@ -231,6 +246,8 @@ class C16(Check):
         kind = ms['doc']
         if kind == 'none':
             return None
+        if kind == 'fields-only':      # a docstring without a summary line: field sections only
+            return '\n    '.join([f':param {ANN_DOC[ann]} {name}: the {name} argument' for name, ann in pnames] + [':returns: the result'])
         lines = ['Does something useful.']
         if kind == 'summary':
             return lines[0]
@@ -351,11 +368,21 @@ class C16(Check):
                 exposed = f'custom.{pyname}' if ms['custom_name'] else pyname
             else:
                 reg.add(fn, exposed, context='ctx' if ms['ctx'] else None)
-            built.append({'fn': fn, 'exposed': exposed, 'endpoint': i % spec['endpoints']})
+            # the error codes this method's entry must mention: the classes of its own `errors=[...]` annotation
+            # (OpenAPI documents errors inside the response schema, so there must be one: an extractor that produces schemas or an
+            # explicit result_schema; the base extractor alone documents no response at all)
+            extracting = any(e in ('pydantic', 'docstring') for e in spec['extractors'])
+            has_response_schema = is_rpc or extracting or a['result_schema']
+            own_codes = sorted({he.BY_NAME[n].code for n in a['error_names']}) if ms['annotated'] and a['errors'] == 'own' and has_response_schema else []
+            # an error the status map moves to another HTTP status gets a schema of its own only when the pydantic extractor is consulted first (the
+            # others leave that response's schema empty): not judged there
+            moved = set((spec['spec_opts'].get('status_map') or {}).keys()) if not is_rpc and spec['extractors'][0] != 'pydantic' else set()
+            own_codes = [c for c in own_codes if str(c) not in moved]
+            built.append({'fn': fn, 'exposed': exposed, 'endpoint': i % spec['endpoints'], 'error_codes': own_codes})
             if ms.get('alias') and not view:
                 alias = f'alias.of.{pyname}'
                 reg.add(fn, alias, context='ctx' if ms['ctx'] else None)
-                built.append({'fn': fn, 'exposed': alias, 'endpoint': i % spec['endpoints'], 'alias_of': exposed})
+                built.append({'fn': fn, 'exposed': alias, 'endpoint': i % spec['endpoints'], 'alias_of': exposed, 'error_codes': own_codes})
         return registries, built, user_objects
 
     def _make_spec(self, spec: Dict[str, Any]):
@@ -479,6 +506,23 @@ class C16(Check):
                         discs.append(Disc("C16/meta-schema/path-key-without-leading-slash", f"path keys {bad} | {where}"))
                     if set(plain.get('paths', {})) != want_keys:
                         discs.append(Disc("C16/methods-listed", f"document paths {sorted(plain.get('paths', {}))}, expected {sorted(want_keys)} | {where}"))
+                # (4b) completeness of the errors: every error class a method is annotated with is documented in its entry (with its code)
+                for b in built:
+                    if not b.get('error_codes'):
+                        continue
+                    entry, n_found = self._entry(spec, plain, b)
+                    if entry is None:
+                        continue
+                    blob = json.dumps([entry, closure(plain, entry)])
+                    missing = [c for c in b['error_codes'] if not re.search(r'(?<![0-9.])' + re.escape(str(c)) + r'(?![0-9.])', blob)]
+                    if missing:
+                        discs.append(Disc("C16/completeness/annotated-error-not-documented",
+                                          f"{b['exposed']}: error codes {missing} of its errors=[...] annotation appear nowhere in its entry | {where}"))
+                        break
+                # (4c) text members are strings or absent, never null (the 3.1 meta-schema says so through constructs jsonschema 3.2 skips)
+                nulls = null_text_members(plain)
+                if nulls:
+                    discs.append(Disc("C16/meta-schema/null-text-member", f"{nulls[:3]} | {where}"))
                 # (5) purity: repeatability
                 for g, other in enumerate(docs_[1:], start=2):
                     try:
